@@ -105,10 +105,28 @@ func (e *Exec) intBinop(op token.Token, a, b *sym.Term, xt, yt types.Type) Value
 	_, signed, _ := intInfo(xt)
 	switch op {
 	case token.ADD:
-		return sym.Add(a, b)
+		r := sym.Add(a, b)
+		if e.wrapLabel != "" && !signed && a.W <= 64 {
+			// vWrapBegin .. vWrapEnd: unsigned additions must not wrap. Interval reasoning over the terms
+			// discharges most of them; the solver decides the rest.
+			if ua, ub := sym.UBoundMemo(a), sym.UBoundMemo(b); ua+ub < ua || (a.W < 64 && ua+ub >= uint64(1)<<uint(a.W)) {
+				e.check(sym.UGE(r, a), e.wrapLabel)
+			} else {
+				e.wrapBounded++
+			}
+		}
+		return r
 	case token.SUB:
 		return sym.Sub(a, b)
 	case token.MUL:
+		if e.wrapLabel != "" && !signed && a.W <= 32 {
+			if ua, ub := sym.UBoundMemo(a), sym.UBoundMemo(b); ua != 0 && ub > (uint64(1)<<uint(a.W)-1)/ua {
+				wide := sym.Mul(sym.ZExt(a, 2*a.W), sym.ZExt(b, 2*a.W))
+				e.check(sym.ULE(wide, sym.BV(uint64(1)<<uint(a.W)-1, 2*a.W)), e.wrapLabel)
+			} else {
+				e.wrapBounded++
+			}
+		}
 		return sym.Mul(a, b)
 	case token.QUO, token.REM:
 		if !e.branch(sym.Ne(b, sym.BV(0, b.W))) {
